@@ -217,6 +217,12 @@ def nmin(a, b):
     return Node.const(a)._bin('min', b)
 
 
+def cut(x, name):
+    """value-transparent marker: the emitter gives this sub-expression its own Lean definition `<prog>_<name>`"""
+    x = Node.const(x)
+    return Node('cut', (x,), aux=name, rg=x.rg, cv=x.cv, kind=x.kind)
+
+
 def app(fname, args, didx=()):
     """Uninterpreted function application; `didx` = tuple of argument positions differentiated so far."""
     args = tuple(Node.const(a) for a in args)
@@ -263,6 +269,8 @@ def _local_partials(n):
         return [(arg, app(fname, a, didx + (k,))) for k, arg in enumerate(a) if arg.rg]
     if op == 'pow':
         raise Untranslatable("derivative of general pow not supported")
+    if op == 'cut':
+        return [(a[0], 1)]
     if op in ('detach', 'sign', 'var', 'const', 'cmp'):
         return []
     raise Untranslatable(f"no derivative rule for {op}")
@@ -606,7 +614,25 @@ class ST:
         return ST(arr)
 
     def pinverse(self):
-        raise Untranslatable("pinverse on symbolic tensor")
+        # closed forms of the Moore-Penrose inverse for full-column-rank inputs of the shapes we trace
+        a = self.a
+        if a.ndim == 3 and a.shape[2] == 1:  # (B, d, 1): g^+ = g^T / (g^T g)
+            out = np.empty((a.shape[0], 1, a.shape[1]), dtype=object)
+            for b in range(a.shape[0]):
+                ss = a[b, 0, 0] * a[b, 0, 0]
+                for i in range(1, a.shape[1]):
+                    ss = ss + a[b, i, 0] * a[b, i, 0]
+                for i in range(a.shape[1]):
+                    out[b, 0, i] = a[b, i, 0] / ss
+            return ST(out)
+        if a.ndim == 3 and a.shape[1:] == (2, 2):  # invertible 2x2: adj / det
+            out = np.empty(a.shape, dtype=object)
+            for b in range(a.shape[0]):
+                det = a[b, 0, 0] * a[b, 1, 1] - a[b, 0, 1] * a[b, 1, 0]
+                out[b, 0, 0], out[b, 0, 1] = a[b, 1, 1] / det, -a[b, 0, 1] / det
+                out[b, 1, 0], out[b, 1, 1] = -a[b, 1, 0] / det, a[b, 0, 0] / det
+            return ST(out)
+        raise Untranslatable("pinverse on symbolic tensor of this shape")
 
     def __repr__(self):
         return f"ST{self.a.shape}"
